@@ -108,6 +108,9 @@ type Check struct {
 	Runs     map[string]int // per tier
 	NA       bool
 	RaceTier bool
+	// Shared: canonical digest of a few fixed scenarios, computed by every worker and
+	// compared by the driver across processes (C16)
+	Shared func(base uint64) string
 }
 
 var checks = map[string]*Check{}
@@ -179,6 +182,9 @@ func workerMain(args []string) {
 	deadline := time.Now().Add(time.Duration(envInt("VERIF_WORKER_SECONDS", 3600)) * time.Second)
 	st := NewStats()
 	wo := WorkerOut{Stats: st}
+	if c.Shared != nil {
+		wo.Digest = c.Shared(base)
+	}
 	seen := map[string]bool{}
 	status := out + ".cur"
 	for i := from; i < to; i++ {
@@ -343,6 +349,7 @@ func checkMain(id, tier string) int {
 
 	st := NewStats()
 	var found []Found
+	sharedDigest, sharedMismatch := "", false
 	for w := range results {
 		r := &results[w]
 		if r.err != nil {
@@ -364,7 +371,20 @@ func checkMain(id, tier string) int {
 			return 2
 		}
 		st.merge(r.out.Stats)
+		if c.Shared != nil {
+			if sharedDigest == "" {
+				sharedDigest = r.out.Digest
+			} else if r.out.Digest != "" && r.out.Digest != sharedDigest && !sharedMismatch {
+				sharedMismatch = true
+				found = append(found, Found{V: Violation{Prop: id, Rule: id + ".crossprocess", Sig: "digest-differs-between-workers",
+					Msg: fmt.Sprintf("the same shared scenarios produced different canonical digests in two worker processes (%s vs %s)", sharedDigest[:16], r.out.Digest[:16])},
+					Scenario: c.Gen(seedFor(base, id+"-shared", 0), tier), RunIdx: 0})
+			}
+		}
 		found = append(found, r.out.Found...)
+	}
+	if c.RaceTier && os.Getenv("VERIF_NORACE") == "" {
+		found = append(found, raceTier(c, tier, base, st)...)
 	}
 	known := loadKnown()
 	sort.Slice(found, func(i, j int) bool { return found[i].RunIdx < found[j].RunIdx })
